@@ -195,3 +195,12 @@ def gx_run(d, cases, timeout=600, jobs=None):
         for j, o in enumerate(per[k]):
             res[k + j * jobs] = o
     return res
+
+
+def gx_format(d, texts, timeout=600):
+    """pipe texts through the repo's real CodeFormatter; returns list of {'out':..} / {'err':..}"""
+    if not texts:
+        return []
+    p = subprocess.run([os.path.join(d, "gxtool"), "format"], input="\n".join(json.dumps(t) for t in texts) + "\n",
+                       stdout=subprocess.PIPE, stderr=subprocess.PIPE, text=True, env=GOENV, timeout=timeout)
+    return [json.loads(l) for l in p.stdout.splitlines() if l.strip()]
